@@ -75,10 +75,10 @@ def assumption_checks(ctx, acc, spec, rd):
     pts = sorted(spec['pts'], key=lambda p: p[0])
     sp = rd.spline
     cmax = max(abs(p[1]) for p in pts) + 1e-300
+    if len(pts) < 2:
+        return          # one point: the repository's own ConstantSpline, not an external component
     for t, c in pts:
         acc.see('interpolates', abs(float(sp(t)) - c) / cmax, 1e-10)
-    if len(pts) < 2:
-        return
     mn, mx = pts[0][0], pts[-1][0]
     rng = ctx.rng
     pp = L.ppoly_of(rd)
